@@ -87,3 +87,44 @@ Definition model_slug (c : slug_case) : res str := ROk (slugify (deu_total (g_de
 Definition check_slug (c : slug_case) : bool :=
   forallb (fun ch => (ch <? 128) || match deu_of (g_deu c) ch with Some _ => true | None => false end) (g_s c)
   && rstr_eqb (model_slug c) (g_impl c).
+
+(* encrl: the enc family on LONG strings given in run-length form (block, count) - the input and every
+   implementation output are expanded here and compared in full with the model, element by element;
+   only the printing is compact *)
+Definition rl := list (list N * N).
+Definition rl_expand (r : rl) : list N :=
+  flat_map (fun p : list N * N => concat (repeat (fst p) (N.to_nat (snd p)))) r.
+Definition res_map {A B} (f : A -> B) (r : res A) : res B :=
+  match r with ROk a => ROk (f a) | RErr e => RErr e end.
+
+Record encrl_case := {
+  r_s : rl; r_b64 : list (res rl); r_b64dec : list (res rl); r_url : res rl; r_urls : res rl }.
+
+Definition expand_encrl (c : encrl_case) : enc_case :=
+  {| e_s := rl_expand (r_s c);
+     e_b64 := map (res_map rl_expand) (r_b64 c);
+     e_b64dec := map (res_map rl_expand) (r_b64dec c);
+     e_url := res_map rl_expand (r_url c);
+     e_urls := res_map rl_expand (r_urls c) |}.
+
+Definition check_encrl (c : encrl_case) : bool := check_enc (expand_encrl c).
+
+(* for replays: per output (length of the model's text, position of the first difference with the
+   implementation's text if any) instead of the texts themselves *)
+Fixpoint first_diff (a b : list N) (i : N) : option N :=
+  match a, b with
+  | [], [] => None
+  | x :: a', y :: b' => if x =? y then first_diff a' b' (i + 1) else Some i
+  | _, _ => Some i
+  end.
+Definition diff_res (m i : res str) : option (N * option N) :=
+  match m, i with
+  | ROk a, ROk b => Some (N.of_nat (length a), first_diff a b 0)
+  | _, _ => None
+  end.
+Definition model_encrl (c : encrl_case) :=
+  let e := expand_encrl c in
+  let '(encs, decs, u, us) := model_enc e in
+  (map (fun p => diff_res (fst p) (snd p)) (combine encs (e_b64 e)),
+   map (fun p => diff_res (fst p) (snd p)) (combine decs (e_b64dec e)),
+   diff_res u (e_url e), diff_res us (e_urls e)).
